@@ -330,6 +330,7 @@ pub fn c15(a: &Args, rep: &mut Report) {
         one_c15("C15", &c, rep);
     });
     giant_cells(a, rep, "C15", &[3000, 12000], &[3000, 12000, 12000, 25000, 40000, 70000], |c, rep| one_c15("C15", c, rep));
+    wedge_cells(a, rep, "C15", 3000, 40000, |c, rep| one_c15("C15", c, rep));
 }
 
 // ------------------------------------------------------------------------------------------------
